@@ -449,18 +449,23 @@ Proof.
   destruct (Hcf _ _ _ _ _ _ _ Ej) as (r2 & In2 & Id2 & F2 & W2 & A2 & P2 & V2 & H2).
   unfold table_ok in Hok. rewrite forallb_forall in Hok. specialize (Hok _ In1).
   rewrite forallb_forall in Hok. specialize (Hok _ In2).
-  apply orb_true_iff in Hok. destruct Hok as [Hcons | Hex].
+  destruct (pair_consistent T r1 r2) eqn:Hcons.
   2:{ exfalso. apply Hnex. exists t, t', x, w, a, p, s, w', a', p', s', r1, r2. repeat split; assumption. }
-  unfold pair_consistent in Hcons. rewrite !orb_true_iff in Hcons.
-  destruct Hcons as [[[Hnc | Hp1] | Hp2] | Hg].
-  - exfalso. apply negb_true_iff in Hnc. unfold rows_conflict in Hnc.
+  clear Hok. unfold pair_consistent in Hcons.
+  destruct (rows_conflict r1 r2) eqn:Hnc.
+  2:{ exfalso. unfold rows_conflict in Hnc.
     assert (same_variant r1 r2 = true) as Hsv.
     { unfold same_variant. destruct (N.eqb (r_variant r1) 0) eqn:E1; [reflexivity |].
       destruct (N.eqb (r_variant r2) 0) eqn:E2; [reflexivity |]. cbn.
       apply N.eqb_neq in E1, E2. apply N.eqb_eq. rewrite <- (V1 E1), <- (V2 E2). reflexivity. }
     rewrite Hsv, F1, F2, N.eqb_refl, W1, W2, A1, A2 in Hnc.
     destruct w, a, w', a'; cbn in Hnc; try discriminate;
-      destruct Hw as [Hw | Hw], Ha as [Ha | Ha]; discriminate.
+      destruct Hw as [Hw | Hw], Ha as [Ha | Ha]; discriminate. }
+  assert (r_prepub r1 = true \/ r_prepub r2 = true \/
+          common_guard T (r_field r1) (r_held r1) (r_held r2) = true) as Hcase.
+  { destruct (r_prepub r1); [left; reflexivity |]. destruct (r_prepub r2); [right; left; reflexivity |].
+    right; right. exact Hcons. }
+  destruct Hcase as [Hp1 | [Hp2 | Hg]].
   - right; left. exists t, (Acc x w a p s). split; [exact Ei |]. cbn. congruence.
   - right; right. exists t', (Acc x w' a' p' s'). split; [exact Ej |]. cbn. congruence.
   - left. unfold common_guard in Hg. apply existsb_exists in Hg.
@@ -497,8 +502,9 @@ Proof.
   assert (table_ok T0 = true) as Hok0.
   { unfold table_ok, table_strictly_ok in *. cbn [t_rows T0]. rewrite forallb_forall in *.
     intros r1 In1. specialize (Hok _ In1). rewrite forallb_forall in *. intros r2 In2.
-    specialize (Hok _ In2). unfold pair_consistent in *. cbn [t_classes t_fields T0] in *.
-    apply orb_true_iff. left. exact Hok. }
+    specialize (Hok _ In2).
+    replace (pair_consistent T0 r1 r2) with (pair_consistent T r1 r2) by reflexivity.
+    rewrite Hok. reflexivity. }
   apply (table_protected T0 kind tr Hok0); [exact Hcf | exact Hc |].
   intros (t & t' & x & w & a & p & s & w' & a' & p' & s' & r1 & r2 & _ & _ & _ & _ & _ & _ & Hex).
   unfold pair_excused in Hex. cbn in Hex. discriminate.
